@@ -51,7 +51,21 @@ def classify(kind, case):
     if kind == "scases":
         return "header-only-classification"
     if kind in ("ecases", "tcases"):
-        return c.get("Class", kind)
+        cls = c.get("Class", kind)
+        if cls != "generated":
+            return cls
+        # the exchange that was not answered completely / correctly: the first one not done, else any suspicious one
+        ex = c.get("Exchs", [])
+        done = case.get("done", len(ex))
+        cand = ex[done:done + 1] or ex
+        for x in cand + ex:
+            rq, rs = x["Req"], x["Resp"]
+            if rq["Proto"] == "HTTP/1.0" and rs["Framing"] == "chunked":
+                return "http10-client-chunked-origin"
+            if rs.get("Gzip") and "gzip" not in rq.get("AcceptE", ""):
+                return "gzip-solicited-by-proxy"
+        x = cand[0]
+        return "e2e:%s/%s/%s/%s" % (x["Req"]["Method"], x["Req"]["Proto"], x["Resp"]["Framing"], x["Resp"]["Code"])
     return kind
 
 
